@@ -60,7 +60,9 @@ the model's step order relies on: appends write the file before the index;
 both rollbacks commit the index before truncating the file; a failed index
 commit is repaired by sync + truncate; start-up trims a partial header before
 looking at the file size; `appendRaw` reverts a short write to the END of the
-file; the block manager rolls the filter store back before the block store. -/
+file; the block manager rolls the filter store back before the block store;
+both constructors run `resetInterruptedInit` (which empties only a file of exactly
+one entry whose index has no tip) before they test the file size. -/
 theorem C08_source_shape :
     Gen.Store.blockWriteFileFirst = true ∧ Gen.Store.filterWriteFileFirst = true ∧
     Gen.Store.blockRollbackIndexFirst = true ∧ Gen.Store.filterRollbackIndexFirst = true ∧
@@ -68,6 +70,8 @@ theorem C08_source_shape :
     Gen.Store.blockOpenTrimsFirst = true ∧ Gen.Store.filterOpenTrimsFirst = true ∧
     Gen.Store.appendRawSeeksEnd = true ∧ Gen.Store.appendRawTruncatesOnShortWrite = true ∧
     Gen.Store.rollbackFilterStoreFirst = true ∧
+    Gen.Store.openResetsInterruptedInit = true ∧ Gen.Store.blockOpenResetBeforeSizeTest = true ∧
+    Gen.Store.filterOpenResetBeforeSizeTest = true ∧
     0 < Gen.Store.blockHeaderSize ∧ 0 < Gen.Store.regularFilterHeaderSize := by decide
 
 /-- Every on-disk state the very first start can leave behind when it is killed
